@@ -993,11 +993,14 @@ def type_check_args(
         new_args.append(a)
     assert next(comptime_args, None) is None
 
-    # If the argument check succeeded, this means that we must have found instantiations
-    # for all unification variables occurring in the input types
-    assert all(
-        set.issubset(inp.ty.unsolved_vars, subst.keys()) for inp in func_ty.inputs
-    )
+    # If the argument check succeeded, we should have found instantiations for all
+    # unification variables occurring in the input types. This is not the case for
+    # arguments that don't determine their type, for example an empty list `[]`
+    for arg, func_inp in zip(new_args, func_ty.inputs, strict=True):
+        if not set.issubset(func_inp.ty.unsolved_vars, subst.keys()):
+            raise GuppyTypeInferenceError(
+                TypeInferenceError(arg, func_inp.ty.substitute(subst))
+            )
 
     # We also have to check that we found instantiations for all vars in the return type
     if not set.issubset(func_ty.output.unsolved_vars, subst.keys()):
@@ -1117,7 +1120,12 @@ def synthesize_call(
     unquantified, free_vars = func_ty.unquantified()
     args, subst = type_check_args(args, unquantified, {}, ctx, node)
 
-    # Success implies that the substitution is closed
+    # The substitution must be closed. This can fail if the type of an argument is not
+    # fully determined, for example `comptime([])`
+    for arg, func_inp in zip(args, unquantified.inputs, strict=True):
+        arg_ty = func_inp.ty.substitute(subst)
+        if arg_ty.unsolved_vars:
+            raise GuppyTypeInferenceError(TypeInferenceError(arg, arg_ty))
     assert all(not t.unsolved_vars for t in subst.values())
     inst = check_all_solved(subst, free_vars, func_ty, node)
 
